@@ -108,8 +108,14 @@ void vp_raw_free(void *p) {
 }
 
 /* ---------------- port API ---------------- */
-uint64_t lltd_port_monotonic_milliseconds(void) { return vp_clock_ms; }
-uint64_t lltd_port_monotonic_seconds(void) { return vp_clock_ms / 1000ULL; }
+uint64_t vp_clock_jump = 0;        /* one-shot: the clock moves on by this much right after the next reading (a clock that runs WHILE the core works) */
+static uint64_t read_clock(void) {
+    uint64_t v = vp_clock_ms;
+    if (vp_clock_jump) { vp_clock_ms += vp_clock_jump; vp_clock_jump = 0; }
+    return v;
+}
+uint64_t lltd_port_monotonic_milliseconds(void) { return read_clock(); }
+uint64_t lltd_port_monotonic_seconds(void) { return read_clock() / 1000ULL; }
 
 void *lltd_port_malloc(size_t size) {
     malloc_calls++;
@@ -163,14 +169,14 @@ int lltd_port_get_mtu(void *ctx, size_t *out) {
 }
 int lltd_port_get_icon_image(void **out_data, size_t *out_size) {
     if (!out_data || !out_size || !vp_glob.icon_present) return -1;
-    if (vp_glob.icon_len == 0) { *out_data = NULL; *out_size = 0; return 0; }
+    if (vp_glob.icon_len == 0) { *out_data = vp_glob.empty_block ? vp_raw_alloc(0) : NULL; *out_size = 0; return 0; }
     uint8_t *p = vp_raw_alloc(vp_glob.icon_len);
     memcpy(p, vp_glob.icon, vp_glob.icon_len);
     *out_data = p; *out_size = vp_glob.icon_len; return 0;
 }
 int lltd_port_get_friendly_name(void **out_data, size_t *out_size) {
     if (!out_data || !out_size || !vp_glob.fname_present) return -1;
-    if (vp_glob.fname_len == 0) { *out_data = NULL; *out_size = 0; return 0; }
+    if (vp_glob.fname_len == 0) { *out_data = vp_glob.empty_block ? vp_raw_alloc(0) : NULL; *out_size = 0; return 0; }
     uint8_t *p = vp_raw_alloc(vp_glob.fname_len);
     memcpy(p, vp_glob.fname, vp_glob.fname_len);
     *out_data = p; *out_size = vp_glob.fname_len; return 0;
